@@ -489,7 +489,8 @@ impl LinearModel {
     /// `Display`. Boolean variables are written in a `Binary` section, integers
     /// in `General`, and any non-default continuous bounds in `Bounds`.
     pub fn to_lp_format(&self) -> String {
-        let vars = &self.variables;
+        let lp_names = lp_variable_names(&self.variables);
+        let vars = &lp_names.values().cloned().collect::<Vec<_>>();
         let mut out = String::new();
 
         let direction = match self.optimization_type {
@@ -550,6 +551,7 @@ impl LinearModel {
         let mut binaries: Vec<String> = Vec::new();
         let mut generals: Vec<String> = Vec::new();
         for (name, dv) in self.domain.iter() {
+            let name = lp_names.get(name).unwrap_or(name);
             match dv.get_type() {
                 VariableType::Boolean => binaries.push(name.clone()),
                 VariableType::IntegerRange(min, max) => {
@@ -619,6 +621,40 @@ fn lp_bound(n: f64) -> String {
 
 /// Formats a linear combination `sum(coeff_i * var_i)`, omitting zero terms and
 /// unit coefficients (so `1 x` renders as `x`).
+/// Variable names as they are written in the LP text. A compiled name can contain
+/// characters that are operators in the LP format (`x_{i - 1}` with `i = 0` is `x_-1`,
+/// which an LP reader takes for `x_ - 1`): those characters are replaced by `_`, and the
+/// result is kept distinct from every other variable name.
+fn lp_variable_names(vars: &[String]) -> IndexMap<String, String> {
+    fn is_name_char(c: char) -> bool {
+        c.is_ascii_alphanumeric() || "!\"#$%&(),.;?@_'`{}~".contains(c)
+    }
+    fn is_lp_name(name: &str) -> bool {
+        name.chars().all(is_name_char)
+            && !name.starts_with(|c: char| c.is_ascii_digit() || c == '.')
+            && !name.is_empty()
+    }
+    let mut taken: IndexSet<String> = vars.iter().filter(|v| is_lp_name(v)).cloned().collect();
+    vars.iter()
+        .map(|name| {
+            if is_lp_name(name) {
+                return (name.clone(), name.clone());
+            }
+            let mut candidate: String = name
+                .chars()
+                .map(|c| if is_name_char(c) { c } else { '_' })
+                .collect();
+            if !is_lp_name(&candidate) {
+                candidate.insert(0, '_');
+            }
+            while !taken.insert(candidate.clone()) {
+                candidate.push('_');
+            }
+            (name.clone(), candidate)
+        })
+        .collect()
+}
+
 fn lp_terms(coeffs: &[f64], vars: &[String]) -> String {
     let mut s = String::new();
     for (c, v) in coeffs.iter().zip(vars) {
